@@ -55,6 +55,15 @@ fn gen(t: &mut Tape, tier: Tier) -> Scenario {
         carry_run = r;
         ep = EP_C_LZMA;
     }
+    if t.below(if tier == Tier::Thorough { 400 } else { 100 }) == 0 {
+        // the range encoder's low register exactly on a boundary of its emit/defer/carry test
+        let (v, mut p) = gen::rc_witness(t.below(16) as usize);
+        let extra = t.below(40) as usize;
+        p.extend(gen::draw_bytes(t, extra));
+        plain = p;
+        ep = EP_C_LZMA;
+        sc.set_i("rc_boundary", v);
+    }
     let len = plain.len();
     sc.set_i("ep", ep);
     sc.set_i("enc_mode", t.below(3));
@@ -126,6 +135,9 @@ fn exec(sc: &Scenario, ctx: &mut Ctx) -> Vec<Violation> {
     }
     if ro.calls > 2 {
         ctx.stats.hit("probe.reader_fragmented_the_input");
+    }
+    if sc.has_i("rc_boundary") {
+        ctx.stats.hit("probe.range_encoder_low_exactly_on_a_boundary_at_a_shift");
     }
     if sc.i("carry_run") >= 4 {
         ctx.stats.hit("probe.carry_through_4_or_more_pending_ff_bytes");
@@ -242,7 +254,7 @@ fn wrap_lzma2_in_xz_23(payload: &[u8], content: &[u8]) -> Vec<u8> {
 pub static C04: SimpleProp = SimpleProp {
     id: "C04",
     level: "exploration",
-    rule: "one evaluation = one compression into a sink that accepts whole or (a third of the runs) scripted partial writes (lzma_compress with each of the 3 header options, lzma2_compress, xz_compress) of a plaintext (lengths 0, 1, 65535, 65536, 65537, 2-3 x 64 KiB, small random, and now and then 8 MiB + a little, i.e. longer than the dictionary the encoder announces; content: constant 0x00/0xFF, random, sparse, sawtooth, long runs with surprises, text-like, and inputs constructed by a guided search so that a carry resolves >= 4 pending 0xFF bytes in the range encoder) read through scripted short reads (1 byte, fixed k, random) or a real BufReader of capacity 1..70000; the output must decode to the input with (a) lzma-rs under the matching option, consuming every emitted byte, (b) the strict reference decoder/parser, (c) liblzma (LZMA2 wrapped into .xz by the reference writer; the header-less layout excepted); non-trivial = non-empty plaintext; distinct by (scenario, event log) hash",
+    rule: "one evaluation = one compression into a sink that accepts whole or (a third of the runs) scripted partial writes (lzma_compress with each of the 3 header options, lzma2_compress, xz_compress) of a plaintext (lengths 0, 1, 65535, 65536, 65537, 2-3 x 64 KiB, small random, and now and then 8 MiB + a little, i.e. longer than the dictionary the encoder announces; content: constant 0x00/0xFF, random, sparse, sawtooth, long runs with surprises, text-like, inputs constructed by a guided search so that a carry resolves >= 4 pending 0xFF bytes in the range encoder, and four embedded witnesses under which the encoder's low register is exactly 0xFEFFFFFF / 0xFF000000 / 0xFFFFFFFF / 0x100000000 when a byte is shifted out) read through scripted short reads (1 byte, fixed k, random) or a real BufReader of capacity 1..70000; the output must decode to the input with (a) lzma-rs under the matching option, consuming every emitted byte, (b) the strict reference decoder/parser, (c) liblzma (LZMA2 wrapped into .xz by the reference writer; the header-less layout excepted); non-trivial = non-empty plaintext; distinct by (scenario, event log) hash",
     runs_quick: 40_000,
     runs_thorough: 4_000_000,
     both_profiles: false,
